@@ -26,16 +26,16 @@ var errTemplates = map[string]string{
 	"timestamp input enabled but invalid time step: %d":       "EFmt T_bad_step",
 	"challenge input required but no challenge format set":    "EFmt T_no_format",
 	// the suite parser
-	"invalid OCRA suite format: %q":          "EFmt T_suite_format",
-	"unsupported OCRA version: %q":           "EFmt T_suite_version",
-	"unknown or unsupported crypto in %q":    "EFmt T_suite_crypto",
-	"invalid crypto format: %q":              "EFmt T_crypto_format",
-	"unsupported hash %q":                    "EFmt T_suite_hash",
-	"invalid digit spec %q":                  "EFmt T_suite_digits",
-	"unsupported numeric challenge spec %q":  "EFmt T_numeric_spec",
-	"unknown password hash type %q":          "EFmt T_pw_type",
-	"invalid time spec %q: %w":               "EFmt T_time_spec",
-	"unknown data input token %q":            "EFmt T_unknown_token",
+	"invalid OCRA suite format: %q":                     "EFmt T_suite_format",
+	"unsupported OCRA version: %q":                      "EFmt T_suite_version",
+	"unknown or unsupported crypto in %q":               "EFmt T_suite_crypto",
+	"invalid crypto format: %q":                         "EFmt T_crypto_format",
+	"unsupported hash %q":                               "EFmt T_suite_hash",
+	"invalid digit spec %q":                             "EFmt T_suite_digits",
+	"unsupported numeric challenge spec %q":             "EFmt T_numeric_spec",
+	"unknown password hash type %q":                     "EFmt T_pw_type",
+	"invalid time spec %q: %w":                          "EFmt T_time_spec",
+	"unknown data input token %q":                       "EFmt T_unknown_token",
 	"nil URL provided":                                  "EFmt T_url_nil",
 	"invalid URL scheme: %s":                            "EFmt T_url_scheme",
 	"unsupported OTP type: %s":                          "EFmt T_url_type",
@@ -43,13 +43,13 @@ var errTemplates = map[string]string{
 	"invalid digits value: %s":                          "EFmt T_url_digits",
 	"unsupported algorithm: %s":                         "EFmt T_url_alg",
 	"invalid period value: %s":                          "EFmt T_url_period",
-	"invalid decimal %q":                 "EFmt T_invalid_decimal",
-	"failed to decode counter: %w":       "EStd T_hex_counter",
-	"failed to decode challenge: %w":     "EStd T_hex_challenge",
-	"failed to decode password: %w":      "EStd T_hex_password",
-	"failed to decode session info: %w":  "EStd T_hex_session",
-	"failed to decode timestamp: %w":     "EStd T_hex_timestamp",
-	"failed to generate random secret: %w": "EStd T_random",
+	"invalid decimal %q":                                "EFmt T_invalid_decimal",
+	"failed to decode counter: %w":                      "EStd T_hex_counter",
+	"failed to decode challenge: %w":                    "EStd T_hex_challenge",
+	"failed to decode password: %w":                     "EStd T_hex_password",
+	"failed to decode session info: %w":                 "EStd T_hex_session",
+	"failed to decode timestamp: %w":                    "EStd T_hex_timestamp",
+	"failed to generate random secret: %w":              "EStd T_random",
 	// errors whose text the model does not render (class only): the arguments are dropped
 	"too short time spec":    "EStd 10",
 	"unknown time unit %q":   "EStd 12",
@@ -169,6 +169,11 @@ func (fc *fctx) expr(e ast.Expr) string {
 	case *ast.CompositeLit:
 		return fc.composite(e)
 	case *ast.TypeAssertExpr:
+		// s.(RawSuite) / s.(SuiteConfig) on the interface Suite: both implementations are their configuration (the
+		// dynamic type is not modelled); on a nil interface the assertion panics
+		if fc.kind(e.X) == kSuiteI && e.Type != nil && fc.t.kindOf(fc.typeOf(e)) == kSuite {
+			return fc.bind("deref " + fc.expr(e.X))
+		}
 		t.fail(e, "type assertion outside the pool idiom")
 	}
 	t.fail(e, "expression form %T", e)
@@ -275,9 +280,22 @@ func (fc *fctx) binary(e *ast.BinaryExpr) string {
 	switch e.Op {
 	case token.LAND, token.LOR:
 		a := fc.expr(e.X)
-		fc.noBind++
+		saved := fc.pre
+		fc.pre = nil
 		b := fc.expr(e.Y)
-		fc.noBind--
+		preB := fc.pre
+		fc.pre = saved
+		if len(preB) > 0 {
+			// the right operand can panic (or calls a translated function): it runs only when the left one lets it
+			if fc.noBind > 0 {
+				fc.t.fail(e, "an operation that can panic on the right of && or ||")
+			}
+			rhs := "(" + strings.Join(preB, "\n  ") + "\n  Val " + b + ")"
+			if e.Op == token.LAND {
+				return fc.bind("(if " + a + " then " + rhs + " else Val false)")
+			}
+			return fc.bind("(if " + a + " then Val true else " + rhs + ")")
+		}
 		if e.Op == token.LAND {
 			return "(" + a + " && " + b + ")"
 		}
@@ -394,7 +412,7 @@ func (fc *fctx) compare(e *ast.BinaryExpr, kx kind) string {
 		k := fc.kind(x)
 		var s string
 		switch k {
-		case kErr, kParamPtr, kURLPtr, kUParamPtr, kSuiteI:
+		case kErr, kParamPtr, kURLPtr, kUParamPtr, kSuiteI, kLocalPtr:
 			s = "(is_some " + fc.expr(x) + ")"
 		default:
 			t.fail(e, "comparison of %s with nil", fc.typeOf(x))
@@ -559,6 +577,23 @@ func (fc *fctx) selector(e *ast.SelectorExpr) string {
 	// the struct the field belongs to (through embedding and pointers)
 	recv := sel.Recv()
 	x := fc.expr(e.X)
+	if ln, _ := t.localStruct(derefT(recv)); ln != nil {
+		if _, ptr := recv.(*types.Pointer); ptr {
+			byValue := false
+			if id, ok := e.X.(*ast.Ident); ok {
+				if v, ok := t.info.ObjectOf(id).(*types.Var); ok && fc.recvVals[v] {
+					byValue = true
+				}
+			}
+			if !byValue {
+				x = fc.bind("deref " + x) // a nil pointer: the field access panics
+			}
+		}
+		if len(sel.Index()) != 1 {
+			t.fail(e, "promoted field")
+		}
+		return "(" + ln.Obj().Name() + "_" + e.Sel.Name + " " + x + ")"
+	}
 	if p, ok := recv.(*types.Pointer); ok {
 		recv = p.Elem()
 		if t.kindOf(sel.Recv()) == kParamPtr {
@@ -602,6 +637,60 @@ func (fc *fctx) composite(e *ast.CompositeLit) string {
 	ty := fc.typeOf(e)
 	if len(e.Elts) == 0 {
 		return t.zero(e, ty)
+	}
+	if fc.kind(e) == kDetails {
+		return "tt"
+	}
+	if ln, st := t.localStruct(ty); ln != nil {
+		vals := map[string]string{}
+		for _, el := range e.Elts {
+			kv, ok := el.(*ast.KeyValueExpr)
+			if !ok {
+				t.fail(e, "positional struct literal")
+			}
+			vals[kv.Key.(*ast.Ident).Name] = fc.expr(kv.Value)
+		}
+		var parts []string
+		for i := 0; i < st.NumFields(); i++ {
+			if v, ok := vals[st.Field(i).Name()]; ok {
+				parts = append(parts, v)
+			} else {
+				parts = append(parts, t.zero(e, st.Field(i).Type()))
+			}
+		}
+		return "(mk_" + ln.Obj().Name() + " " + strings.Join(parts, " ") + ")"
+	}
+	if named, ok := ty.(*types.Named); ok {
+		ctor := map[string]string{"Param": "mkParam", "SuiteConfig": "mkSuite", "OCRAInput": "mkInput"}[named.Obj().Name()]
+		st, isSt := named.Underlying().(*types.Struct)
+		if ctor != "" && isSt && named.Obj().Pkg() != nil && named.Obj().Pkg().Path() == libPath {
+			vals := map[string]string{}
+			for _, el := range e.Elts {
+				kv, ok := el.(*ast.KeyValueExpr)
+				if !ok {
+					t.fail(e, "positional struct literal")
+				}
+				vals[kv.Key.(*ast.Ident).Name] = fc.expr(kv.Value)
+			}
+			var parts []string
+			for _, f := range fieldProj[named.Obj().Name()] {
+				name := strings.Split(f, ":")[0]
+				if v, ok := vals[name]; ok {
+					parts = append(parts, v)
+					delete(vals, name)
+					continue
+				}
+				for i := 0; i < st.NumFields(); i++ {
+					if st.Field(i).Name() == name {
+						parts = append(parts, t.zero(e, st.Field(i).Type()))
+					}
+				}
+			}
+			if len(vals) != 0 {
+				t.fail(e, "%s literal with a field the model does not have", named.Obj().Name())
+			}
+			return "(" + ctor + " " + strings.Join(parts, " ") + ")"
+		}
 	}
 	if fc.kind(e) == kPairs {
 		var items []string
